@@ -10,7 +10,13 @@ import FancyModel.Model.VM
   has a result ending exactly at `ix`") equals what the compiled code does ("go back `minSize`
   characters, run the body, do not check where it ends; fail if that would be before the start").
 * `C13_goback`: `goBack` fails rather than reading before the start of the text.
-* `C13_accept_*`: which look-behinds the compiler accepts.
+* `C13_accept_*`: which look-behinds the compiler accepts (`C13_accept_iff`, `C13_accept_iff_alt`).
+
+Finding (not a defect of the crate): `constSize`/`minSize` are NOT exact for the bare node
+`Delegate{"\n*$", size 0}` (`C13_const_exact_false_for_bare_endZ`), and a look-behind whose body is
+that bare node would be decided wrongly by "go back 0" (second `example` of section 2). The parser
+only produces the node as `LookAround(Delegate{..}, LookAhead)` (src/parse.rs, escape `\Z`), which
+is covered by `noBareEndZ`; the real crate gives the expected answers for `(?<=a\Z)`, `(?<=\Z)`.
 
 Side conditions of exactness (each one is necessary, see the `example`s next to the theorems):
 * `wellShaped` (literals are one character: `min_size` counts a literal as 1);
@@ -738,6 +744,8 @@ theorem C13_goback (ix n : Nat) :
   · simp [h]
   · simp [h]; omega
 
+example : goBack 3 2 = some 1 ∧ goBack 1 2 = none := by simp [goBack]
+
 /-! ## 4. which look-behinds the compiler accepts -/
 
 theorem C13_accept_behind_not_const (br : Nat → Bool) (e : Expr) (hna : ∀ es, e ≠ .alt es)
@@ -1061,6 +1069,22 @@ example :
     simp [isHard, isHardAny, constSize, constSizeAll, allMinSize, minSize, minSizeSum, satAdd, UNSET,
       lookBehindAlts, visit]
   · rw [visit]
-    simp [isHard, isHardAny, constSize, constSizeAll, boundsEq, UNSET, lookBehindAlts, visit]
+    simp [isHard, constSize, constSizeAll, boundsEq, UNSET, lookBehindAlts, visit]
+
+theorem visit_literal_ok (br : Nat → Bool) (v : List Char) (hard : Bool) (pc nsv gix : Nat)
+    (err : CompileErr) : visit br (.literal v false) hard pc nsv gix ≠ .error err := by
+  rw [visit]
+  split
+  · simp
+  · simp
+
+/-- the side hypotheses of `C13_accept_iff` / `C13_accept_iff_alt` are satisfiable -/
+example : (∀ hard pc nsv gix, visit (fun _ => false) (.literal ['a'] false) hard pc nsv gix ≠
+      .error .lookBehindNotConst) ∧
+    (∀ err, ¬ subErr (fun _ => false) [.literal ['a'] false, .literal ['b'] false] err) := by
+  refine ⟨fun hard pc nsv gix => visit_literal_ok _ _ _ _ _ _ _, ?_⟩
+  rintro err ⟨e, he, hard, pc, nsv, gix, h⟩
+  simp only [List.mem_cons, List.not_mem_nil, or_false] at he
+  rcases he with rfl | rfl <;> exact visit_literal_ok _ _ _ _ _ _ _ h
 
 end Fancy
